@@ -16,7 +16,20 @@ def _run(job):
 
     wb, src = entitygen.build(job["case"])
     fmt = job["fmt"]
-    inp, kw = render.render(wb, fmt)
+    if fmt == "dict_grid":
+        # the entities sheet as a grid editor would hand it over: the row carries all five documented columns, "" where the cell is
+        # empty (the survey sheet is left sparse: what an empty string means in a survey cell is not something C19 speaks about)
+        inp, kw = render.render(wb, "dict")
+        d = inp["data"]
+        if d.get("entities"):
+            d["entities_header"] = [{h: None for h in list(d["entities_header"][0]) + [c for c in ("label", "entity_id", "create_if", "update_if") if c not in d["entities_header"][0]]}]
+        for key in ("entities",):
+            cols = [h for hd in d.get(f"{key}_header", []) for h in hd]
+            for row in d.get(key, []):
+                for h in cols:
+                    row.setdefault(h, "")
+    else:
+        inp, kw = render.render(wb, fmt)
     res = conv.convert_case({"input": inp, "kwargs": kw, "events": False})
     ev = {"ev": "entity", "status": res["status"], "case": job["case"], "src": src, "obs": dict(EMPTY)}
     if res["status"] == "ok":
@@ -43,7 +56,7 @@ def run(rep):
     for c in cases:
         c["saveto"] = sorted(c["saveto"])
     rep.bounds["cases"] = {"distinct": len(cases)}
-    jobs = [{"case": c, "fmt": ("md" if i % 5 == 1 else "xlsx" if i % 97 == 3 else "dict")} for i, c in enumerate(cases)]
+    jobs = [{"case": c, "fmt": ("md" if i % 5 == 1 else "xlsx" if i % 97 == 3 else "dict_grid" if i % 5 == 2 else "dict")} for i, c in enumerate(cases)]
     outs = conv.map_cases(_run, jobs, chunksize=16)
     for o in outs:
         if o.get("status") == "harness_error":
